@@ -148,7 +148,7 @@ def run(tier):
         def orc(c):
             if c['sanitizer']: return 'sanitizer report'
             if c['kind'] != 'exit' or c['code'] != expect_status: return 'ends with %s(%s) instead of status %d' % (c['kind'], c['code'], expect_status)
-            if c['inv'] & ~64 & ~allow_inv: return 'scheduler counter invariant broken (%d)' % c['inv']
+            if c['inv'] & ~64 & ~allow_inv: return 'invariant broken: ' + sched.inv_text(c['inv'] & ~64 & ~allow_inv, c.get('note', ''))
             if expect_out is not None and (c['stdout_len'] != len(expect_out) or c['stdout_hash'] != common.fnv64(expect_out)):
                 return 'stdout differs from the concatenation of the outputs of separate runs'
             return None
